@@ -24,7 +24,7 @@ CONFIG = dict(
         "not promise snapshot isolation for them)",
     ],
     units=[
-        dict(test="TestC22", quick=6000, thorough=800000, shards=16, steps=50),
+        dict(test="TestC22", quick=20000, thorough=1600000, shards=16, steps=50),
         dict(test="FuzzC22", kind="fuzz", fuzztime="60s", tiers=["thorough"]),
     ],
 )
